@@ -367,7 +367,9 @@ pub fn run_for_name(name: &[u16], short: &[u8; 11]) -> Vec<Vec<u8>> {
     out
 }
 
-const ORDERS: &[u8] = &[0x01, 0x02, 0x03, 0x04, 0x41, 0x42, 0x43, 0x44, 0x14, 0x15, 0x54, 0x55, 0x21, 0x61, 0x81, 0xC1, 0x40, 0x60, 0x5F, 0x1F, 0x3F, 0x7F];
+// index 0 with only the undefined bits / the last flag set (0x20, 0x80, 0xA0, 0xC0, 0xE0) included: a continuation slot
+// "0" after a run that has reached index 1
+const ORDERS: &[u8] = &[0x01, 0x02, 0x03, 0x04, 0x41, 0x42, 0x43, 0x44, 0x14, 0x15, 0x54, 0x55, 0x21, 0x61, 0x81, 0xC1, 0x40, 0x60, 0x5F, 0x1F, 0x3F, 0x7F, 0x20, 0x80, 0xA0, 0xC0, 0xE0, 0x13, 0x53];
 
 fn units_for(tag: u16) -> [u16; 13] {
     let mut u = [0u16; 13];
@@ -440,8 +442,23 @@ fn soup_strategy() -> impl Strategy<Value = DirCase> {
             v
         }),
         // long runs: 19..21 slots, with or without terminator
-        1 => (245usize..=262, any::<bool>()).prop_map(|(len, dir)| {
-            let units: Vec<u16> = (0..len).map(|i| 0x41 + (i % 26) as u16).collect();
+        // (BMP only, or with valid surrogate pairs / lone surrogates sprinkled in: a pair is two units but one character)
+        2 => (245usize..=262, any::<bool>(), 0usize..4, prop::collection::vec(0usize..260, 0..12)).prop_map(|(len, dir, mode, at)| {
+            let mut units: Vec<u16> = (0..len).map(|i| 0x41 + (i % 26) as u16).collect();
+            for p in at {
+                match mode {
+                    1 if p + 1 < len => {
+                        units[p] = 0xD83D;
+                        units[p + 1] = 0xDE00 + (p as u16 & 0x3F);
+                    }
+                    2 if p < len => units[p] = if p % 2 == 0 { 0xD800 } else { 0xDFFF },
+                    3 if p + 1 < len && p >= len.saturating_sub(14) => {
+                        units[p] = 0xD83D;
+                        units[p + 1] = 0xDE00;
+                    }
+                    _ => {}
+                }
+            }
             let short = *b"LONGRUN~1  ";
             let chk = sfn_checksum(&short);
             let n = (len + 12) / 13;
@@ -498,7 +515,7 @@ fn fail(c: &DirCase, m: String) -> Failure {
 }
 
 pub fn run(tier: Tier, seed: u64) -> i32 {
-    let rule = "directory regions (fixed FAT12 root and a two-cluster chained directory) filled with generated 32-byte slots, cluster fields forced valid: block A = every order/last-flag/checksum pattern of runs of 1..3 long-name slots over 22 interesting order bytes x follower (short entry, deleted slot, label, end marker, second run, directory); block B = every value of each of the 32 bytes of each slot of a valid two-slot run and of its short entry; block C = random slot soup (valid runs with one damaged byte, 19-21 slot runs with and without terminator, garbage long-name slots incl. attr 0x1F/0x2F/0x3F, arbitrary short slots, deleted, labels, end markers); oracle = iteration and every accessor + Debug terminate without panic within a device-call budget, names <= 255 units, and the listing (entries, short names, long names) equals refdec's backwards run parser under at least one reading of the undefined bits; non-trivial = region with a long-name slot whose run is broken; distinct by hash of the region";
+    let rule = "directory regions (fixed FAT12 root and a two-cluster chained directory) filled with generated 32-byte slots, cluster fields forced valid: block A = every order/last-flag/checksum pattern of runs of 1..3 long-name slots over 29 interesting order bytes (incl. index 0 with only flag / undefined bits) x follower (short entry, deleted slot, label, end marker, second run, directory); block B = every value of each of the 32 bytes of each slot of a valid two-slot run and of its short entry; block C = random slot soup (valid runs with one damaged byte, 19-21 slot runs of 245..262 units with and without terminator, BMP-only or with surrogate pairs / lone surrogates, garbage long-name slots incl. attr 0x1F/0x2F/0x3F, arbitrary short slots, deleted, labels, end markers); oracle = iteration and every accessor + Debug terminate without panic within a device-call budget, names <= 255 units, and the listing (entries, short names, long names) equals refdec's backwards run parser under at least one reading of the undefined bits; non-trivial = region with a long-name slot whose run is broken; distinct by hash of the region";
     let mut rep = Report::new("C17", tier, seed, "exploration", rule);
     rep.assume("undefined bits (attr bits 4-5 of long-name slots, order-byte bits 5 and 7) may be read either way; a run whose order/checksum are valid but whose NUL/0xFFFF layout is malformed may be returned or dropped");
     rep.assume("this check drives the default (alloc) build; the fixed-buffer build is compared against it in C19's featdrv");
